@@ -271,7 +271,46 @@ def detect_execute(case, stats):
     )
 
 
+def large_enumerate(tier, shard, nshards):
+    from ..runner import shard_iter
+
+    def gen():
+        for size in (65535, 65536, 70001, 131074, 262147):
+            for chunk in (8192, 65536, 4099):
+                yield {"size": size, "chunk": chunk}
+
+    return shard_iter(gen(), shard, nshards)
+
+
+def large_execute(case, stats):
+    """Views over large plaintexts (beyond 64 / 128 / 256 KiB): streaming, far seeks, END-relative reads."""
+    import random as _r
+
+    from dissect.cobaltstrike.xordecode import XorEncodedFile
+
+    rnd = _r.Random(case["size"])
+    plain = rnd.randbytes(case["size"])
+    raw = xorenc.build_stage(plain, b"\x10\x20\x30\x40", b"\x90" * 7, marker=False)
+    xf = lib(XorEncodedFile, io.BytesIO(raw), nonce_offset=7)
+    out = b""
+    while True:
+        d = lib(xf.read, case["chunk"])
+        if not d:
+            break
+        out += bytes(d)
+        eq(lib(xf.tell), len(out), "view:position", f"tell() while streaming a {case['size']}-byte view in chunks of {case['chunk']}")
+    eq(out == plain, True, "view:stream", f"streaming a {case['size']}-byte view in chunks of {case['chunk']}")
+    for pos in (65533, 65536, case["size"] - 5, case["size"] // 2 + 1):
+        if 0 <= pos <= len(plain):
+            lib(xf.seek, pos)
+            eq(bytes(lib(xf.read, 11)), plain[pos : pos + 11], "view:read_data", f"read(11) at {pos} of a {case['size']}-byte view")
+    lib(xf.seek, -9, 2)
+    eq(bytes(lib(xf.read)), plain[-9:], "view:read_data", "read() after seek(-9, END) on a large view")
+    stats.note(case, True, classes=["large_view"])
+
+
 SUBS = [
+    Sub("view_large", large_execute, enumerate=large_enumerate, exhaustive=True),
     Sub("view_stateful", view_execute, machine=view_machine, examples={"quick": 3200, "thorough": 48000}, steps=40),
     Sub("view_stream", stream_execute, strategy=stream_strategy, examples={"quick": 3200, "thorough": 64000}),
     Sub("detect", detect_execute, strategy=detect_strategy, examples={"quick": 1600, "thorough": 32000}),
